@@ -390,8 +390,9 @@ type vDialEv struct {
 }
 
 type vdialer struct {
-	b  *vbroker
-	mu sync.Mutex
+	stateCalls func(*BaseClient) // what the application does inside its ConnState callback
+	b          *vbroker
+	mu         sync.Mutex
 
 	attempts int
 	dials    []vDialEv
@@ -499,6 +500,9 @@ func (d *vdialer) DialContext(ctx context.Context) (*BaseClient, error) {
 		c.stMu.Unlock()
 		if d.onState != nil {
 			d.onState(k, s, err)
+		}
+		if d.stateCalls != nil {
+			d.stateCalls(cli)
 		}
 	}
 	c.cli = cli
